@@ -45,7 +45,7 @@ BOUNDS = {'quick': {'orders': 'line/quad/hex 0..7, tri 0..8, tet 0..6, wedge 0..
 ITEM_TIMEOUT = {'quick': 900, 'thorough': 7200}
 ORD = {'quick': {'line': 7, 'tri': 8, 'quad': 7, 'tet': 6, 'hex': 5, 'wedge': 5},
        'thorough': {'line': 12, 'tri': 19, 'quad': 12, 'tet': 8, 'hex': 8, 'wedge': 10}}
-SEEDS = {'line': ['L3', 'L2c'], 'tri': ['T2', 'TL6', 'T3comp'], 'quad': ['Q1', 'Q2', 'Q4par'], 'tet': ['K1', 'K3e'],
+SEEDS = {'line': ['L3', 'L2c'], 'tri': ['T2', 'TL6', 'T3comp'], 'quad': ['Q1', 'Q2', 'Q4par', 'Qmix'], 'tet': ['K1', 'K3e'],
          'hex': ['H1', 'H2'], 'wedge': ['W2', 'W4']}
 
 
@@ -466,6 +466,27 @@ def matrix_checks(st0, m, name, lab, tier, out):
                 bad('mass-sum', f"sum of mass matrix entries {M.sum()!r} != measure {exact_vol!r}")
             else:
                 out.nt((name, lab, ent.name, 'mass-sum'))
+        # boundary mass matrix of degree-one Lagrange elements: the trace on a straight facet is linear, so the
+        # entries are |F|/3 and |F|/6 (2-D) whatever the shape of the cell
+        if dim == 2 and ent.name in ('ElementTriP1', 'ElementQuad1') and kind != 'wedge':
+            from skfem import FacetBasis
+            fb = FacetBasis(m, ent.make())
+            Mb = mass.assemble(fb).toarray()
+            want = np.zeros_like(Mb)
+            for j in m.boundary_facets():
+                a, b_ = (int(v) for v in m.facets[:, j])
+                L_ = float(np.linalg.norm(m.p[:, a] - m.p[:, b_]))
+                da, db = int(fb.nodal_dofs[0, a]), int(fb.nodal_dofs[0, b_])
+                want[da, da] += L_ / 3
+                want[db, db] += L_ / 3
+                want[da, db] += L_ / 6
+                want[db, da] += L_ / 6
+            out.ev()
+            if np.abs(Mb - want).max() > 1e-12 * (1 + np.abs(want).max()):
+                i_, j_ = np.unravel_index(np.abs(Mb - want).argmax(), want.shape)
+                bad('facet-mass-entries', f"boundary mass entry [{i_},{j_}] = {Mb[i_, j_]!r}, exact {want[i_, j_]!r}")
+            else:
+                out.nt((name, lab, ent.name, 'facet-mass'))
         mons = local_space_monomials(ent, kind)
         if mons is None:
             continue
